@@ -31,5 +31,6 @@ def run(col, configs, tier):
         guarded(col, X.rule_sticky_scans, facts)
         guarded(col, X.rule_hi_truncation, facts)
         guarded(col, X.rule_binary_factor, facts)
+        guarded(col, X.rule_reparse_skips_zeros, facts)
         guarded(col, X.rule_rte_window, facts)
         guarded(col, X.rule_error_accounting, facts)
